@@ -2,6 +2,7 @@ package chain
 
 import (
 	"fmt"
+	"math"
 
 	"verif/sim/core"
 )
@@ -59,6 +60,21 @@ type Workload struct {
 
 var workloads = map[string]*Workload{}
 
+// BaseExtra is a group of extension transaction kinds mixed into the runs of the properties
+// that have no workload of their own (C01, C05, C08, C09, C10, C15).
+type BaseExtra struct {
+	Name    string
+	Kinds   []string
+	WideArg bool // draw op.Arg from 0..65535 instead of 0..63
+	Tune    func(r *core.Rand, k *ChainKnobs)
+}
+
+var baseExtras []*BaseExtra
+
+// RegisterBaseExtra registers a base extra (call from init; order = registration order, which
+// is the lexical order of the file names, so it is stable).
+func RegisterBaseExtra(x *BaseExtra) { baseExtras = append(baseExtras, x) }
+
 // RegisterWorkload registers the workload extension of a property.
 func RegisterWorkload(prop string, w *Workload) { workloads[prop] = w }
 
@@ -110,6 +126,14 @@ func GenKnobsFor(r *core.Rand, replicas int, profile string) GenKnobs {
 	for i := 0; i < k.Accounts; i++ {
 		k.AccountBalance = append(k.AccountBalance, uint64(r.Pick([]int{1, 8})*r.Range(0, 50_000)))
 	}
+	// Boundary nonces: a legal genesis may hold accounts whose nonce is about to wrap.
+	for i := 0; i < k.Accounts; i++ {
+		var n uint64
+		if r.Chance(1, 6) {
+			n = math.MaxUint64 - uint64(r.Pick([]int{3, 2, 1, 1}))
+		}
+		k.AccountNonce = append(k.AccountNonce, n)
+	}
 	return k
 }
 
@@ -133,6 +157,20 @@ func (e Engine) Generate(r *core.Rand, tier core.Tier) *core.Scenario {
 	if wl != nil && wl.Tune != nil {
 		wl.Tune(r, &k)
 	}
+	// Base properties (no workload of their own): each registered base extra (methods of further
+	// applications: roothash.SubmitMsg, registry registrations, ...) is enabled in a third of the
+	// runs and then supplies about a sixth of the transactions.
+	var extras []*BaseExtra
+	if wl == nil {
+		for _, x := range baseExtras {
+			if r.Chance(1, 3) {
+				if x.Tune != nil {
+					x.Tune(r, &k)
+				}
+				extras = append(extras, x)
+			}
+		}
+	}
 	sc := &core.Scenario{Engine: "chain", Knobs: core.MustJSON(k)}
 	heights := r.Range(12, 40)
 	if tier == core.Thorough {
@@ -148,6 +186,14 @@ func (e Engine) Generate(r *core.Rand, tier core.Tier) *core.Scenario {
 			if wl != nil && len(wl.Kinds) > 0 && r.Intn(35+wl.Weight) < wl.Weight {
 				op.Kind = wl.Kinds[r.Intn(len(wl.Kinds))]
 				op.Arg = r.Intn(1 << 16)
+			}
+			for _, x := range extras {
+				if r.Chance(1, 6) {
+					op.Kind = x.Kinds[r.Intn(len(x.Kinds))]
+					if x.WideArg {
+						op.Arg = r.Intn(1 << 16)
+					}
+				}
 			}
 			if r.Chance(1, 2) {
 				op.Fee = uint64(r.Range(0, 50))
